@@ -161,7 +161,7 @@ func runC05Real(cause c05Cause, launch string, idx int) (caseLine, impl, pred st
 	base := filepath.Join(work, fmt.Sprintf("c05-%d-%d", os.Getpid(), idx))
 	os.MkdirAll(base, 0o755)
 	defer os.RemoveAll(base)
-	caseLine = fmt.Sprintf("C05 launch=%s hs=0 ops=S,K cause=%s", map[string]string{"cmd": "cmd", "cmdattr": "cmd", "cmdcancel": "cmd", "runner": "runner"}[launch], cause.name)
+	caseLine = fmt.Sprintf("C05 launch=%s hs=0 ops=S,K cause=%s", map[string]string{"cmd": "cmd", "cmdattr": "cmd", "cmdcancel": "cmd", "cmdstdin": "cmd", "runner": "runner"}[launch], cause.name)
 	cmd := kitCmd(cause.kit, "TMPDIR="+base)
 	if launch == "cmdcancel" {
 		// the host built the command with exec.CommandContext and the documented graceful-stop hook (Cancel = SIGINT):
@@ -171,6 +171,15 @@ func runC05Real(cause c05Cause, launch string, idx int) (caseLine, impl, pred st
 		cc.Env = cmd.Env
 		cc.Cancel = func() error { return cc.Process.Signal(os.Interrupt) }
 		cmd = cc
+		launch = "cmd"
+	}
+	if launch == "cmdstdin" {
+		// the host's command carries a standard input of its own that is not a file and never ends (a pipe nobody writes
+		// to): plugins get the host's standard input whatever the command says, so nothing waits for that reader
+		caseLine += " attr=stdin"
+		pr0, pw0 := io.Pipe()
+		defer pw0.Close()
+		cmd.Stdin = pr0
 		launch = "cmd"
 	}
 	if launch == "cmdattr" {
@@ -395,6 +404,9 @@ func init() {
 					if m["attr"] == "cancel" {
 						l = "cmdcancel"
 					}
+					if m["attr"] == "stdin" {
+						l = "cmdstdin"
+					}
 					cl, impl, pred := runC05Real(c, l, i)
 					o.emit(cl, impl, pred)
 				}
@@ -422,7 +434,7 @@ func init() {
 		causes := c05Causes()
 		type rr struct{ cl, impl, pred string }
 		var jobs []func() rr
-		for _, launch := range []string{"cmd", "runner", "cmdattr", "cmdcancel"} {
+		for _, launch := range []string{"cmd", "runner", "cmdattr", "cmdcancel", "cmdstdin"} {
 			for i, c := range causes {
 				launch, c, i := launch, c, i
 				jobs = append(jobs, func() rr {
